@@ -101,6 +101,15 @@ pub fn run_case(block: &Path, c: &RaCase, r: &mut Report) {
         r.outcome("panic");
         r.violation("C14:remove_dir_all:panic", format!("{what}: panicked: {p}"), cj.clone());
     }
+    // "link/" names the directory the link leads to (path resolution follows a link before a trailing '/'):
+    // emptying it is what was asked for -- std::fs::remove_dir_all and rm -r do the same and then fail on the
+    // final rmdir.  Recorded, not judged.
+    let names_target = c.trailing_slash && c.kind <= 1;
+    if names_target {
+        r.outcome(&format!("argument:{}+slash:names-the-target:{}(not-judged)", KINDS[c.kind], if outside.is_some() { "target-emptied" } else { "target-intact" }));
+        cleanup(&case_dir);
+        return;
+    }
     if let Some(d) = &outside {
         let key = if c.kind <= 3 { "C14:remove_dir_all:symlink-argument-target-touched" } else { "C14:remove_dir_all:outside-touched" };
         r.violation(key, format!("{what} returned {res}; outside the named entry {d}"), cj.clone());
@@ -129,7 +138,7 @@ pub fn rule() -> String {
     format!(
         "[remove_dir_all on a non-directory argument] the path handed to remove_dir_all is each of {:?} x {{plain, with a trailing '/'}}, next to an outside directory tree (the symlink's target), a \
          sibling file; the call runs in a forked child under a {HANG_MS} ms watchdog. Whatever it returns, the recursive std::fs listing of everything except the named entry must be unchanged; it \
-         must return; after Ok the entry is gone.",
+         must return; after Ok the entry is gone. (A symlink to a directory followed by '/' names the target directory itself: recorded only.)",
         KINDS
     )
 }
